@@ -3,7 +3,7 @@
 From Coq Require Import List ZArith NArith Bool Lia.
 From DH Require Import Lib.CheckLib Model.Store Model.Refs Model.Query Model.GraphSpec
      Proofs.StoreProofs Proofs.RefsProofs Proofs.QueryProofs Proofs.RefsInv Proofs.C03Paging Proofs.C03Proofs
-     Check.C03Check.
+     Check.C03Check Proofs.C03CheckProofs.
 Import ListNotations.
 Open Scope Z_scope.
 
@@ -157,6 +157,29 @@ Theorem C03_paging_refuted_two_datasets :
   pages q_current = [[8]; [8]; [4]] /\ pages q_fixed = [[8]; [4]].
 Proof. vm_compute. split; reflexivity. Qed.
 Print Assumptions C03_paging_refuted_two_datasets.
+
+(** tie to the correspondence check: on well-formed cases (queries with one start point and one page limit,
+    results within the follow fuel) agreement of the implementation's observations with the repaired model
+    implies the executable spec on those observations - every returned triple is an edge of the graph of the
+    latest versions, every edge is returned, nothing is returned twice *)
+Theorem C03_agree_implies_spec : forall c, wf_case c -> agree v_fixed c = true -> spec_ok c = true.
+Proof. exact agree_implies_spec. Qed.
+Print Assumptions C03_agree_implies_spec.
+
+Example C03_link_nonvacuous :
+  let c := {| tc_ds := [2; 3];
+              tc_ops := [QWrite (WBatch 2 [e1 (cref false [(6, [8; 9]); (7, [8])] 82)]);
+                         QWrite (WBatch 3 [e1 (cref false [(6, [8])] 53)]);
+                         QRelated [5] 0 false [] now [1] (Some [[(5, 6, 8)]; [(5, 7, 8)]; [(5, 6, 9)]]);
+                         QRelated [8] 6 true [3; 99] now [0] (Some [[(8, 6, 5)]]);
+                         QRelated [5] 0 false [99] now [2] (Some [[]])] |} in
+  wf_case c /\ agree v_fixed c = true /\ spec_ok c = true.
+Proof.
+  cbv zeta. split; [|vm_compute; split; reflexivity].
+  split.
+  - repeat (constructor; [cbn; try exact I; try (split; [eexists; reflexivity | split; [eexists; split; [reflexivity | lia] | lia]])|]). constructor.
+  - cbn. unfold fuel0. repeat split; cbn; lia.
+Qed.
 
 (** non-vacuity: delete / un-delete inside a batch, a transaction over both datasets, the same entity in
     both datasets with different delete states; queries with results *)
